@@ -77,6 +77,9 @@ package fasta
 //@   let E := r.r.end
 //@   let P := old(r.r.pos)
 //@   ensures @C01 forall t int :: {Y[t].1} 0 <= t && t < len(Y) && Y[t].1 == nil ==> fpos(IN, E, P, t) < E && fastaRec(rawarr(Y[t].0.Name), offset(Y[t].0.Name), len(Y[t].0.Name), rawarr(Y[t].0.Sequence), offset(Y[t].0.Sequence), len(Y[t].0.Sequence), IN, E, fpos(IN, E, P, t))
+// under a fault every yielded record ends strictly before the end of the delivered bytes, at a record boundary: it is a
+// complete record, the same in any longer stream (C07)
+//@   ensures @C07 forall t int :: {Y[t].1} active0 && 0 <= t && t < len(Y) && Y[t].1 == nil ==> fnext(IN, E, fpos(IN, E, P, t)) < E
 //@   ensures @C01 !stopped && !r.r.fault ==> fpos(IN, E, P, len(Y)) == E && forall t int :: {Y[t].1} 0 <= t && t < len(Y) ==> Y[t].1 == nil
 //@   loop 1
 //@     invariant r != nil
@@ -84,6 +87,7 @@ package fasta
 //@     invariant r.r.fired == old(r.r.fired) && r.r.pos <= r.r.end
 //@     invariant @C01 len(Y) == IT && r.r.pos == fpos(IN, E, P, IT) && mark(IT)
 //@     invariant @C01 forall t int :: {Y[t].1} 0 <= t && t < len(Y) ==> Y[t].1 == nil && fpos(IN, E, P, t) < E && fastaRec(rawarr(Y[t].0.Name), offset(Y[t].0.Name), len(Y[t].0.Name), rawarr(Y[t].0.Sequence), offset(Y[t].0.Sequence), len(Y[t].0.Sequence), IN, E, fpos(IN, E, P, t))
+//@     invariant @C07 forall t int :: {Y[t].1} active0 && 0 <= t && t < len(Y) ==> Y[t].1 == nil && fnext(IN, E, fpos(IN, E, P, t)) < E
 //@     decreases r.r.end - r.r.pos
 //@     splitvar t == IT - 1
 
